@@ -76,7 +76,7 @@ pub fn main(args: &Args) -> i32 {
                 .prop_map(|(mut p, roll, target, at)| {
                     if roll == 0 {
                         let at = at.min(p.ops.len());
-                        p.ops.insert(at, Op::Add { m: 0, ts: 2, apply: Apply::Immediate });
+                        p.ops.insert(at, Op::Add { m: 0, ts: 2, apply: Apply::Immediate, extra: 0 });
                         p.ops.insert(at, Op::Remove { m: 0, target, ts: 1, apply: Apply::Immediate, extra: 0 });
                     }
                     p
